@@ -14,7 +14,7 @@ def main():
     from celpy.adapter import json_to_cel, CELJSONEncoder
     hist = json.loads(sys.argv[1])
     envs, progs, out = {}, {}, []
-    types = {"int": ct.IntType, "map": ct.MapType, "string": ct.StringType}
+    types = {"int": ct.IntType, "map": ct.MapType, "string": ct.StringType, "double": ct.DoubleType, "uint": ct.UintType, "bool": ct.BoolType}
     for op in hist:
         try:
             if op[0] == "env":
@@ -36,14 +36,24 @@ def main():
                 progs[name] = env.program(env.compile(text), functions=funcs)
             elif op[0] == "eval":
                 _, pname, bindings = op
-                b = {k: json_to_cel(v) for k, v in bindings.items()}
+                def typed(v):
+                    # {"$t": kind, "v": text}: a CEL value JSON cannot spell (uint, a signed zero, bytes, an explicit kind)
+                    if isinstance(v, dict) and "$t" in v:
+                        k, x = v["$t"], v["v"]
+                        return {"int": lambda: ct.IntType(int(x)), "uint": lambda: ct.UintType(int(x)), "double": lambda: ct.DoubleType(float(x)),
+                                "bool": lambda: ct.BoolType(x == "true"), "string": lambda: ct.StringType(x), "bytes": lambda: ct.BytesType(x.encode())}[k]()
+                    return json_to_cel(v)
+                b = {k: typed(v) for k, v in bindings.items()}
                 before = json.dumps({k: json.loads(json.dumps(v, cls=CELJSONEncoder)) for k, v in b.items()}, sort_keys=True)
                 try:
                     v = progs[pname].evaluate(b)
-                    try:
-                        res = ["value", type(v).__name__, json.loads(json.dumps(v, cls=CELJSONEncoder))]
-                    except TypeError:
-                        res = ["value", type(v).__name__, repr(v)]
+                    if isinstance(v, float):
+                        res = ["value", type(v).__name__, repr(float(v))]        # keeps the sign of zero, inf and nan
+                    else:
+                        try:
+                            res = ["value", type(v).__name__, json.loads(json.dumps(v, cls=CELJSONEncoder))]
+                        except TypeError:
+                            res = ["value", type(v).__name__, repr(v)]
                 except celpy.CELEvalError:
                     res = ["error"]
                 after = json.dumps({k: json.loads(json.dumps(v, cls=CELJSONEncoder)) for k, v in b.items()}, sort_keys=True)
